@@ -30,6 +30,7 @@ type HarnessCfg struct {
 	Note     string
 	Pure     []string // functions summarised by path merging at their return
 	Use      []string // opt-in stubs (names of //verif:stub functions)
+	MaxStates int
 }
 
 type Program struct {
@@ -41,6 +42,9 @@ type Program struct {
 	RunInit  map[string]bool
 	// Stubs are opt-in replacements: harness function name -> target.
 	Stubs    map[string]string
+	// Stale maps harness source files that do not type-check against the
+	// current tree to the first error.
+	Stale    map[string]string
 	Harness  map[string]*HarnessCfg
 	Files    map[string]string // overlay path -> real path of harness sources
 	SrcHash  map[string]string
@@ -58,7 +62,7 @@ var directiveRe = regexp.MustCompile(`(?m)^//verif:(replace|stub|harness)\s+(.*)
 func Load(repoDir, harnessDir string) (*Program, error) {
 	overlay := map[string][]byte{}
 	files := map[string]string{}
-	type repl struct{ target, fn string }
+	type repl struct{ target, fn, file string }
 	var repls, stubs []repl
 	harness := map[string]*HarnessCfg{}
 	ents, err := os.ReadDir(harnessDir)
@@ -79,9 +83,9 @@ func Load(repoDir, harnessDir string) (*Program, error) {
 		for _, m := range directiveRe.FindAllStringSubmatch(string(src), -1) {
 			switch m[1] {
 			case "replace":
-				repls = append(repls, repl{strings.TrimSpace(m[2]), m[3]})
+				repls = append(repls, repl{strings.TrimSpace(m[2]), m[3], filepath.Join(harnessDir, e.Name())})
 			case "stub":
-				stubs = append(stubs, repl{strings.TrimSpace(m[2]), m[3]})
+				stubs = append(stubs, repl{strings.TrimSpace(m[2]), m[3], filepath.Join(harnessDir, e.Name())})
 			case "harness":
 				hc := &HarnessCfg{Name: m[3]}
 				for _, kv := range strings.Fields(m[2]) {
@@ -107,6 +111,8 @@ func Load(repoDir, harnessDir string) (*Program, error) {
 						hc.Pure = strings.Split(v, ",")
 					case "use":
 						hc.Use = strings.Split(v, ",")
+					case "maxstates":
+						hc.MaxStates, _ = strconv.Atoi(v)
 					}
 				}
 				harness[hc.Name] = hc
@@ -121,31 +127,64 @@ func Load(repoDir, harnessDir string) (*Program, error) {
 	cfg := &packages.Config{Mode: packages.LoadAllSyntax, Dir: repoDir, Overlay: overlay,
 		Env: append(os.Environ(), "GOFLAGS=-mod=mod", "GOPROXY=off", "GOSUMDB=off", "GOTOOLCHAIN=local",
 			"PATH=/opt/veriftools/go1.26.8/bin:"+os.Getenv("PATH"))}
-	pkgs, err := packages.Load(cfg, ".")
-	if err != nil {
-		return nil, err
-	}
-	nerr := 0
-	var msgs []string
-	packages.Visit(pkgs, nil, func(p *packages.Package) {
-		for _, e := range p.Errors {
-			nerr++
-			if len(msgs) < 20 {
-				msgs = append(msgs, e.Error())
-			}
+	var pkgs []*packages.Package
+	stale := map[string]string{}
+	for attempt := 0; ; attempt++ {
+		var err error
+		pkgs, err = packages.Load(cfg, ".")
+		if err != nil {
+			return nil, err
 		}
-	})
-	if nerr > 0 {
-		return nil, &BuildError{Msgs: msgs}
+		nerr := 0
+		var msgs []string
+		badHarness := map[string]string{}
+		other := false
+		packages.Visit(pkgs, nil, func(p *packages.Package) {
+			for _, e := range p.Errors {
+				nerr++
+				if len(msgs) < 20 {
+					msgs = append(msgs, e.Error())
+				}
+				file := e.Pos
+				if i := strings.Index(file, ":"); i >= 0 {
+					file = file[:i]
+				}
+				if _, isHarness := overlay[file]; isHarness && !strings.HasSuffix(file, "zz_verif_prims.go") {
+					if _, ok := badHarness[file]; !ok {
+						badHarness[file] = e.Msg
+					}
+				} else {
+					other = true
+				}
+			}
+		})
+		if nerr == 0 {
+			break
+		}
+		// A harness file that no longer type-checks against this tree (it
+		// names an internal field or function that was renamed or removed) is
+		// set aside, so that the other harnesses still run; the check reports
+		// it as stale and is inconclusive for it.
+		if other || len(badHarness) == 0 || attempt >= 4 {
+			return nil, &BuildError{Msgs: msgs}
+		}
+		for f, m := range badHarness {
+			stale[files[f]] = m
+			delete(overlay, f)
+			delete(files, f)
+		}
 	}
 	prog, spkgs := ssautil.AllPackages(pkgs, ssa.InstantiateGenerics)
 	prog.Build()
 	p := &Program{SSA: prog, Fset: prog.Fset, Pkg: spkgs[0], Replace: map[string]*ssa.Function{}, RunInit: map[string]bool{},
-		Harness: harness, Files: files, RepoDir: repoDir, Sizes: types.SizesFor("gc", "amd64")}
+		Harness: harness, Files: files, RepoDir: repoDir, Stale: stale, Sizes: types.SizesFor("gc", "amd64")}
 	if p.Pkg == nil || p.Pkg.Pkg.Path() != repoPkgPath {
 		return nil, fmt.Errorf("unexpected root package")
 	}
 	for _, r := range repls {
+		if _, isStale := stale[r.file]; isStale {
+			continue
+		}
 		fn := p.Pkg.Func(r.fn)
 		if fn == nil {
 			return nil, fmt.Errorf("verif:replace %s: harness function %s not found", r.target, r.fn)
@@ -154,6 +193,9 @@ func Load(repoDir, harnessDir string) (*Program, error) {
 	}
 	p.Stubs = map[string]string{}
 	for _, r := range stubs {
+		if _, isStale := stale[r.file]; isStale {
+			continue
+		}
 		if p.Pkg.Func(r.fn) == nil {
 			return nil, fmt.Errorf("verif:stub %s: harness function %s not found", r.target, r.fn)
 		}
